@@ -380,8 +380,9 @@ class FlatSet : private Compare {
   }
 
   std::pair<const_iterator, const_iterator> equal_range(const key_type &key) const {
-    const_iterator first = find(key);
-    const_iterator second = first != end() ? std::next(first) : end();
+    // as std::set: [lower_bound, upper_bound), an empty range positioned at the lower bound if the key is absent
+    const_iterator first = lower_bound(key);
+    const_iterator second = first != end() && !compRef()(key, *first) ? std::next(first) : first;
     return std::pair<const_iterator, const_iterator>(first, second);
   }
 
